@@ -88,8 +88,20 @@ def cases(ctx):
         yield gen_case(rng, f'X{ctx.shard}.{i}', W.WRITERS[i % len(W.WRITERS)])
 
 
+def _norm(lines):
+    """Per line: trimmed (any white space), runs of ASCII blanks collapsed; every other character - no-break
+    and ideographic spaces inside the line included - stays what it is.  Empty lines are dropped."""
+    import re
+    out = []
+    for ln in lines:
+        ln = re.sub(r'[ \t\r\n\f\v]+', ' ', ln.strip())
+        if ln.strip():
+            out.append(ln)
+    return out
+
+
 def _lines_of(cap):
-    return dump.norm_lines(dump.text_lines(cap['nodes']))
+    return _norm(dump.text_lines(cap['nodes']))
 
 
 def nontrivial(case):
@@ -148,7 +160,7 @@ def check(case, ctx):
                               'got_lines': [p['lines'] for p in got][:6]})
                 continue
             for c, p in zip(l['captions'], got):
-                want, have = _lines_of(c), dump.norm_lines(p['lines'])
+                want, have = _lines_of(c), _norm(p['lines'])
                 ctx.count('lines_compared', len(want))
                 if want != have:
                     fails.append({'what': 'cue text differs after parsing the output', 'writer': writer,
@@ -176,7 +188,7 @@ def check(case, ctx):
             continue
         for r, idxs in zip(runs, asg):
             want = [x for m in r['members'] for x in _lines_of(m)]
-            have = [x for i in idxs for x in dump.norm_lines(cues[i]['lines'])]
+            have = [x for i in idxs for x in _norm(cues[i]['lines'])]
             ctx.count('lines_compared', len(want))
             if want != have:
                 fails.append({'what': 'cue text differs after parsing the output', 'writer': writer,
